@@ -204,8 +204,10 @@ func (cs *ContractSet) addClause(pkg, file string, cur **Contract, line int, tex
 	if kw == "func" {
 		c := &Contract{Pkg: pkg, Key: rest, File: file, Line: line}
 		k := pkg + "::" + rest
-		if cs.byKey[k] != nil {
-			return errf("duplicate contract for %s", rest)
+		if old := cs.byKey[k]; old != nil {
+			// further clauses for a function that already has a contract
+			*cur = old
+			return nil
 		}
 		cs.byKey[k] = c
 		*cur = c
